@@ -750,6 +750,178 @@ example :
 example : (StatsdFwd.run (init false) [([1], ⟨true, .full⟩), ([2], ⟨true, .fail 1⟩), ([3], ⟨true, .full⟩)]).1.closed.map rxDgram
     = [[[1]]] := by decide
 
+/-! ## the payload loop of `Forwarder::run` with a failing send in the middle (round 7)
+
+`Model/StatsdFwd.cycle` is the `while let Some(payload) = payloads.next_payload()` loop with the `TelemetryUpdate`
+send counters.  The theorems are about ANY client state at the start of the cycle (so: every cycle, not only the
+first), ANY payload list and ANY behaviour of the environment per payload. -/
+
+/-- **every payload of the drain is attempted.**  The loop produces one `try_send` result per payload, whatever the
+    earlier results were: a failed send in the middle does not end the cycle. -/
+theorem run_attempts_every_payload (s : Fwd) (ops : List (Bytes × Env)) :
+    (StatsdFwd.run s ops).2.length = ops.length := run_length ops s
+
+/-- the counted loop drives the same client state machine as `run` -/
+theorem cycle_state_eq_run (s : Fwd) (c : SendCounts) (ops : List (Bytes × Env)) :
+    (cycle s c ops).1 = (StatsdFwd.run s ops).1 := cycle_state ops s c
+
+/-- **the send counters of a cycle are truthful.**  Starting from cleared counters (`telemetry_update.clear()`), in
+    any client state: `packets_sent` is the number of payloads whose `try_send` returned `Ok` and `bytes_sent` their
+    total size; sent + dropped packets = the number of payloads of the drain, sent + dropped bytes = their total
+    size (nothing is counted twice, nothing is left uncounted — in particular the payloads AFTER a failed one); the
+    `_writer` counters equal the dropped counters (the loop has no other source of drops). -/
+theorem cycle_counts_truthful (s : Fwd) (ops : List (Bytes × Env)) :
+    let c := (cycle s SendCounts.zero ops).2
+    let sent := okSent ops (StatsdFwd.run s ops).2
+    c.packetsSent = sent.length
+    ∧ c.bytesSent = totalLen sent
+    ∧ c.packetsSent + c.packetsDropped = ops.length
+    ∧ c.bytesSent + c.bytesDropped = totalLen (ops.map (·.1))
+    ∧ c.packetsDroppedWriter = c.packetsDropped
+    ∧ c.bytesDroppedWriter = c.bytesDropped := by
+  obtain ⟨h1, h2, h3, h4, h5, h6⟩ := cycle_counts_from ops s SendCounts.zero
+  have z1 : SendCounts.zero.packetsSent = 0 := rfl
+  have z2 : SendCounts.zero.bytesSent = 0 := rfl
+  have z3 : SendCounts.zero.packetsDropped = 0 := rfl
+  have z4 : SendCounts.zero.bytesDropped = 0 := rfl
+  have z5 : SendCounts.zero.packetsDroppedWriter = 0 := rfl
+  have z6 : SendCounts.zero.bytesDroppedWriter = 0 := rfl
+  dsimp only
+  refine ⟨?_, ?_, ?_, ?_, ?_, ?_⟩ <;> omega
+
+/-- **what is counted as sent is what the receiver got** (first cycle of an exporter, both transports): the whole
+    payloads that reached a socket, over all sockets the client made, are `packets_sent` many and `bytes_sent` bytes
+    long — and they are exactly the `Ok` payloads, in order (`fwd_ok_exactly_once`). -/
+theorem cycle_sent_is_received (stream : Bool) (ops : List (Bytes × Env)) :
+    let c := (cycle (init stream) SendCounts.zero ops).2
+    let got := (conns (cycle (init stream) SendCounts.zero ops).1).flatMap rxDgram
+    got.length = c.packetsSent ∧ totalLen got = c.bytesSent := by
+  obtain ⟨h1, h2, _⟩ := cycle_counts_truthful (init stream) ops
+  simp only [cycle_state_eq_run, fwd_ok_exactly_once]
+  exact ⟨h1.symm, h2.symm⟩
+
+/-- **a cycle whose every send fails still attempts everything and reports everything dropped**: with an
+    environment in which no connect ever succeeds, nothing is received, `packets_sent = 0` and every payload (and
+    byte) of the drain is counted as dropped. -/
+theorem cycle_all_connects_fail (stream : Bool) (ops : List (Bytes × Env)) (h : ∀ op ∈ ops, op.2.connectOk = false) :
+    (cycle (init stream) SendCounts.zero ops).2
+      = ⟨0, 0, ops.length, ops.length, totalLen (ops.map (·.1)), totalLen (ops.map (·.1))⟩
+    ∧ (conns (cycle (init stream) SendCounts.zero ops).1).flatMap rxDgram = [] := by
+  have key : ∀ (ops : List (Bytes × Env)) (c : SendCounts), (∀ op ∈ ops, op.2.connectOk = false) →
+      cycle (init stream) c ops
+        = (init stream, ⟨c.packetsSent, c.bytesSent, c.packetsDropped + ops.length, c.packetsDroppedWriter + ops.length,
+            c.bytesDropped + totalLen (ops.map (·.1)), c.bytesDroppedWriter + totalLen (ops.map (·.1))⟩) := by
+    intro ops
+    induction ops with
+    | nil => intro c _; simp [cycle, totalLen]
+    | cons op ops ih =>
+      intro c hc
+      obtain ⟨p, e⟩ := op
+      have he : e.connectOk = false := hc (p, e) (List.mem_cons_self ..)
+      have ht : trySend (init stream) p e = (init stream, none) := by simp [trySend, init, he]
+      simp only [cycle, ht, track, trackFailed]
+      rw [ih _ (fun o ho => hc o (List.mem_cons_of_mem _ ho))]
+      simp only [totalLen, List.map_cons, List.sum_cons, List.length_cons]
+      congr 2 <;> omega
+  rw [key ops SendCounts.zero h]
+  simp [SendCounts.zero, conns, init]
+
+/-! ## UDP and the address family (`Client::from_forwarder_config`, finding K-C09-udp6)
+
+The UDP arm binds its socket to `Ipv4Addr::UNSPECIFIED` and then connects it to the configured addresses.  An
+`AF_INET` socket cannot be connected to an IPv6 address, so for an agent address that is IPv6 only (`udp://[::1]:8125`,
+accepted by `RemoteAddr::try_from` and by the builder) EVERY connect fails: nothing is ever delivered and every
+payload is counted as dropped.  Negation of "every accepted configuration delivers" by witness, the provable part
+(`…_partial`), and the repaired policy (bind in the family of the address). -/
+
+/-- **finding (negative): an IPv6-only agent address never receives anything with the IPv4 bind.**  For every payload
+    list, with the socket bound in the IPv4 family and an IPv6 remote: all connects fail, nothing is received,
+    everything is counted as dropped. -/
+theorem udp_ipv4_bind_never_reaches_ipv6 (ps : List Bytes) :
+    let ops := ps.map (fun p => (p, udpEnv (.fixed .v4) [.v6]))
+    (cycle (init false) SendCounts.zero ops).2.packetsSent = 0
+    ∧ (cycle (init false) SendCounts.zero ops).2.packetsDropped = ps.length
+    ∧ (conns (cycle (init false) SendCounts.zero ops).1).flatMap rxDgram = [] := by
+  intro ops
+  have h : ∀ op ∈ ops, op.2.connectOk = false := by
+    intro op hop
+    obtain ⟨p, _, rfl⟩ := List.mem_map.mp hop
+    rfl
+  obtain ⟨h1, h2⟩ := cycle_all_connects_fail false ops h
+  refine ⟨by rw [h1], by rw [h1]; simp [ops], h2⟩
+
+/-- **the provable part: whenever the remote list has an address of the bound family (the documented default
+    `127.0.0.1:8125`, any IPv4 agent, a dual-stack host name), every payload is delivered and counted as sent.** -/
+theorem udp_delivers_partial (b : UdpBind) (remotes : List Family) (hc : udpConnects b remotes = true) (ps : List Bytes) :
+    let ops := ps.map (fun p => (p, udpEnv b remotes))
+    (conns (cycle (init false) SendCounts.zero ops).1).flatMap rxDgram = ps
+    ∧ (cycle (init false) SendCounts.zero ops).2.packetsSent = ps.length
+    ∧ (cycle (init false) SendCounts.zero ops).2.packetsDropped = 0 := by
+  intro ops
+  have hall : ∀ (ps : List Bytes) (s : Fwd), s.stream = false →
+      okSent (ps.map (fun p => (p, udpEnv b remotes))) (StatsdFwd.run s (ps.map (fun p => (p, udpEnv b remotes)))).2 = ps := by
+    intro ps
+    induction ps with
+    | nil => intro s _; rfl
+    | cons p ps ih =>
+      intro s hs
+      simp only [List.map_cons, StatsdFwd.run]
+      have hsome : ∃ n, (trySend s p (udpEnv b remotes)).2 = some n := by
+        unfold trySend udpEnv
+        cases s.ready <;> simp [sendOn, clientSend, hc]
+      obtain ⟨n, hn⟩ := hsome
+      rw [hn]
+      simp only [okSent]
+      rw [ih _ (by rw [trySend_stream]; exact hs)]
+  obtain ⟨h1, _, h3, _⟩ := cycle_counts_truthful (init false) ops
+  have hs := hall ps (init false) rfl
+  refine ⟨?_, ?_, ?_⟩
+  · rw [cycle_state_eq_run, fwd_ok_exactly_once]; exact hs
+  · rw [h1]; show (okSent ops _).length = _; rw [hs]
+  · have : (cycle (init false) SendCounts.zero ops).2.packetsSent = ps.length := by
+      rw [h1]; show (okSent ops _).length = _; rw [hs]
+    have hl : ops.length = ps.length := by simp [ops]
+    omega
+
+/-- **the repaired policy reaches every non-empty remote list**, IPv6-only ones included -/
+theorem udp_bind_of_remote_connects (remotes : List Family) (h : remotes ≠ []) : udpConnects .ofRemote remotes = true := by
+  cases remotes with
+  | nil => exact absurd rfl h
+  | cons a t => rfl
+
+set_option maxRecDepth 100000 in
+/-- **src_udp_bind.**  The UDP arm of `Client::from_forwarder_config` of the current source binds as the model says
+    (one of the two known policies), connects to the whole address list and sets the write timeout; and the payload
+    loop of `run` is the modelled one: the `Err` arm only logs, counts a failed send and goes on (no `break` /
+    `return` / `continue`), the `else` arm counts a successful send, the counters are cleared once per cycle before
+    `flush`; a drain is only skipped whole when its payload count does not fit a `u32`; the writer, the flush state
+    and the counters are created ONCE, before `loop {` (nothing in the loop re-creates them). -/
+theorem src_udp_bind :
+    (udpBindOfSource Generated.dsd_udp_bind).isSome = true
+    ∧ Generated.dsd_run_err_arm
+        = "{ error!(error = %e, \"Failed to send payload.\"); telemetry_update.track_packet_send_failed(payload.len()); payloads_dropped += 1; }"
+    ∧ Generated.dsd_run_ok_arm
+        = "{ telemetry_update.track_packet_send_succeeded(payload.len()); payloads_sent += 1; }"
+    ∧ Generated.dsd_run_loop_exits = []
+    ∧ Generated.dsd_run_clear_then_flush
+        = "telemetry_update.clear(); self.state.flush(&mut flush_state, &mut writer, &mut telemetry_update);"
+    ∧ Generated.dsd_run_too_many_guard = "u32::try_from(payloads.len()).is_err()"
+    ∧ Generated.dsd_run_lets_before_loop = ["flush_state", "writer", "telemetry_update", "next_flush"]
+    ∧ Generated.dsd_run_lets_in_loop
+        = ["payloads", "splay_duration", "payloads_sent", "payloads_dropped", "next_flush_delta", "remaining_payloads",
+           "inter_payload_sleep"] := by
+  decide
+
+/-! non-vacuity: three payloads, the middle one fails (datagram too large for the socket), the third is still sent
+    on a fresh socket; counts 2 sent / 1 dropped with the right byte totals -/
+example :
+    let ops : List (Bytes × Env) := [([1, 2], ⟨true, .full⟩), ([3, 4, 5, 6, 7], ⟨true, .fail 0⟩), ([8], ⟨true, .full⟩)]
+    (cycle (init false) SendCounts.zero ops).2 = ⟨2, 3, 1, 1, 5, 5⟩
+    ∧ (conns (cycle (init false) SendCounts.zero ops).1).flatMap rxDgram = [[1, 2], [8]]
+    ∧ (StatsdFwd.run (init false) ops).2 = [some 2, none, some 1] := by decide
+example : udpConnects (.fixed .v4) [.v6] = false ∧ udpConnects (.fixed .v4) [.v6, .v4] = true
+    ∧ udpConnects .ofRemote [.v6] = true := by decide
+
 end Forwarder
 
 end MetricsVerif.C09
